@@ -181,10 +181,12 @@ impl ReceiveChannelUnreliable {
             .entry(slice.message_id)
             .or_insert_with(|| SliceConstructor::new(slice.message_id, slice.num_slices));
 
+        // Release what was reserved when the constructor was created, later slices can announce a different count
+        let reserved_bytes = slice_constructor.num_slices * SLICE_SIZE;
         if let Some(message) = slice_constructor.process_slice(slice.slice_index, &slice.payload)? {
             self.slices.remove(&slice.message_id);
             self.slices_last_received.remove(&slice.message_id);
-            self.memory_usage_bytes -= slice.num_slices * SLICE_SIZE;
+            self.memory_usage_bytes -= reserved_bytes;
             self.memory_usage_bytes += message.len();
             self.messages.push_back(message);
         } else {
